@@ -236,6 +236,37 @@ def check_enum(vs, typ, opts, default=None):
         e2e.unload(mod)
 
 
+def check_enum_union(form, default, kind="pydantic_v2.BaseModel"):
+    """a member that accepts two enumerations (inline or by $ref, directly or as array items) with a default that belongs to the
+    first or the second: under --set-default-enum-member the default must be a member of the enumeration that lists it"""
+    e1, e2 = {"type": "string", "enum": ["truck", "rail"]}, {"type": "string", "enum": ["counter", "locker"]}
+    i1, i2 = {"type": "integer", "enum": [10, 20]}, {"type": "integer", "enum": [30, 40]}
+    defs = {"Carrier": e1, "Pickup": e2}
+    alts = {"inline": [e1, e2], "refs": [{"$ref": "#/definitions/Carrier"}, {"$ref": "#/definitions/Pickup"}], "ints": [i1, i2],
+            "mixed": [{"$ref": "#/definitions/Carrier"}, i2]}[form]
+    prop = {"anyOf": alts, "default": default}
+    sch = {"title": "M", "type": "object", "properties": {"via": prop}, "definitions": defs}
+    g = e2e.generate(json.dumps(sch), kind=kind, set_default_enum_member=True)
+    if g.timeout:
+        return "generate() does not terminate"
+    if not g.ok:
+        return None
+    if e2e.parses(g.text):
+        return "output does not parse"
+    mod, err = e2e.load_module(g.text, kind)
+    if err:
+        return f"module does not execute: {err}"
+    try:
+        d = mod.M().via
+        d = getattr(d, "root", d)
+        if not isinstance(d, enum.Enum) or d.value != default:
+            line = next((l.strip() for l in g.text.splitlines() if l.strip().startswith("via")), "")
+            return f"default {default!r} is not rendered as the member of the enumeration that lists it (got {d!r}; written `{line}`)"
+        return None
+    finally:
+        e2e.unload(mod)
+
+
 def falsify(ctx):
     rng = ctx.rng("fals")
     cases = []
@@ -246,6 +277,11 @@ def falsify(ctx):
         cases.append((vs, typ, {"enum_field_as_literal": True}, None))
         if probe is not None and probe in vs:
             cases.append((vs, typ, {"set_default_enum_member": True}, probe))
+    # enumerations whose type keyword is a list, with values of several JSON types
+    for typ, vs in ((["string", "integer"], ["none", 7, "x", 404]), (["integer", "string"], ["heavy", 3]), (["number", "string"], [1.5, "a"]),
+                    (["string", "integer"], ["a", "b"]), (["string", "boolean"], ["yes", True]), (["string", "integer", "null"], ["a", 5])):
+        for o in ({}, {"use_subclass_enum": True}, {"use_subclass_enum": True, "capitalise_enum_members": True}, {"enum_field_as_literal": True}):
+            cases.append((vs, typ, dict(o), None))
     for _ in range(ctx.n(150, 2500)):
         vs = gen_values(rng)
         if all(isinstance(v, str) or v is None for v in vs):
@@ -295,16 +331,30 @@ def falsify(ctx):
             if seen <= 6:
                 ctx.violation(f"e2e:{json.dumps(vs)}:{typ}:{sorted(opts)}:{default!r}", f"enum {vs!r} type {typ} {opts} default {default!r}: {why}",
                               {"values": vs, "type": typ, "opts": opts, "default": default, "why": why})
+    for form, defaults in (("inline", ["truck", "counter", "locker"]), ("refs", ["rail", "counter"]), ("ints", [10, 40]), ("mixed", ["truck", 30])):
+        for default in defaults:
+            ctx.count("eval_e2e")
+            ctx.nontrivial(("enum-union", form, default))
+            why = check_enum_union(form, default)
+            if why:
+                ctx.violation(f"enum-union:{form}:{default!r}", f"member accepting two enumerations ({form}), default {default!r}: {why}",
+                              {"enum_union": [form, default], "why": why})
     ctx.sample({"values": cases[-1][0], "opts": cases[-1][2]})
 
 
 def replay_finding(ctx, f):
+    if "enum_union" in f["replay"]:
+        return check_enum_union(*f["replay"]["enum_union"]) is not None
     r = f["replay"]
     return check_enum(r["values"], r["type"], r["opts"], r.get("default")) is not None
 
 
 def replay(ctx, payload):
     r = payload.get("replay", payload)
+    if "enum_union" in r:
+        why = check_enum_union(*r["enum_union"])
+        print("replay:", why or "no violation")
+        return 1 if why else 0
     if "values" not in r:
         print(json.dumps(payload, indent=1)[:3000])
         return 0
